@@ -5,6 +5,7 @@ package records
 
 import (
 	"bufio"
+	"bytes"
 	"encoding/json"
 	"flag"
 	"fmt"
@@ -26,6 +27,8 @@ type recWriter struct {
 
 func (r *recWriter) put(m map[string]any) {
 	b, _ := json.Marshal(m)
+	// TLC's Json module has no null: nil slices are empty sequences
+	b = bytes.ReplaceAll(b, []byte(":null"), []byte(":[]"))
 	r.mu.Lock()
 	r.w.Write(b)
 	r.w.WriteByte('\n')
